@@ -1,6 +1,11 @@
 package mc
 
-import "fmt"
+import (
+	"encoding/json"
+	"fmt"
+)
+
+func jsonUnmarshal(b []byte, v any) error { return json.Unmarshal(b, v) }
 
 func okSeqs(n, acts int) []SeqSpec {
 	var out []SeqSpec
@@ -48,5 +53,190 @@ func FamilyConc(tier string) []*Scenario {
 			{Blocks: []BlockSpec{{Seqs: okSeqs(3, 1), Conc: 2}}},
 			{Blocks: []BlockSpec{{Seqs: okSeqs(2, 1), Conc: 1}}},
 		}})
+	return out
+}
+
+func cloneScenario(sc *Scenario) *Scenario {
+	b := sc.JSON()
+	var out Scenario
+	if err := jsonUnmarshal([]byte(b), &out); err != nil {
+		panic(err)
+	}
+	return &out
+}
+
+// FamilySeq: no checks; 1-2 blocks (second block fixed 1x1), 1-3 sequences x 1-2 actions, c in {1,2,3},
+// t in {-1,0,1}, at most one failing action (every position).
+func FamilySeq(tier string) []*Scenario {
+	var out []*Scenario
+	for nb := 1; nb <= 2; nb++ {
+		for nseq := 1; nseq <= 3; nseq++ {
+			for nact := 1; nact <= 2; nact++ {
+				for _, conc := range []int{1, 2, 3} {
+					if conc > nseq && conc > 1 {
+						continue
+					}
+					for _, tol := range []int{-1, 0, 1} {
+						if tol == 1 && nseq == 1 {
+							continue
+						}
+						for fail := -1; fail < nseq*nact; fail++ {
+							if fail >= 0 && nact == 2 && fail%2 == 1 && nseq == 3 && tier != "thorough" {
+								continue // quick: second-action failures only for <=2 sequences
+							}
+							seqs := okSeqs(nseq, nact)
+							if fail >= 0 {
+								seqs[fail/nact].Actions[fail%nact] = A(Perm)
+							}
+							ps := PlanSpec{Blocks: []BlockSpec{{Seqs: seqs, Conc: conc, Tol: tol}}}
+							if nb == 2 {
+								ps.Blocks = append(ps.Blocks, BlockSpec{Seqs: okSeqs(1, 1), Conc: 1})
+							}
+							out = append(out, &Scenario{Family: "F-seq", Name: fmt.Sprintf("seq-b%d-n%d-a%d-c%d-t%d-f%d", nb, nseq, nact, conc, tol, fail), Plans: []PlanSpec{ps}})
+						}
+					}
+				}
+			}
+		}
+	}
+	return out
+}
+
+var groupNames = []string{"by", "pre", "cont", "post", "def"}
+
+func setGroup(by, pre, cont, post, def **ChecksSpec, g string, c *ChecksSpec) {
+	switch g {
+	case "by":
+		*by = c
+	case "pre":
+		*pre = c
+	case "cont":
+		*cont = c
+	case "post":
+		*post = c
+	case "def":
+		*def = c
+	}
+}
+
+// FamilyChk: one block x 2 sequences x 1 action (c=2); every subset of the five check groups at plan level
+// (block level empty) and at block level (plan level empty); no failing group or exactly one failing group.
+// level2 adds, for every single group, the combination "group at plan level and the same group at block level".
+func FamilyChk(tier string) []*Scenario {
+	var out []*Scenario
+	nact := 1
+	for level := 0; level < 2; level++ {
+		for mask := 1; mask < 32; mask++ {
+			var present []string
+			for gi, g := range groupNames {
+				if mask&(1<<gi) != 0 {
+					present = append(present, g)
+				}
+			}
+			for fi := -1; fi < len(present); fi++ {
+				ps := PlanSpec{Blocks: []BlockSpec{{Seqs: okSeqs(2, 1), Conc: 2}, {Seqs: okSeqs(1, 1), Conc: 1}}}
+				b := &ps.Blocks[0]
+				for gi, g := range present {
+					var acts []ActSpec
+					for a := 0; a < nact; a++ {
+						acts = append(acts, A())
+					}
+					if gi == fi {
+						acts[0] = A(Perm)
+					}
+					c := &ChecksSpec{Actions: acts}
+					if level == 0 {
+						setGroup(&ps.Bypass, &ps.Pre, &ps.Cont, &ps.Post, &ps.Def, g, c)
+					} else {
+						setGroup(&b.Bypass, &b.Pre, &b.Cont, &b.Post, &b.Def, g, c)
+					}
+				}
+				lv := "plan"
+				if level == 1 {
+					lv = "block"
+				}
+				failName := "none"
+				if fi >= 0 {
+					failName = present[fi]
+				}
+				out = append(out, &Scenario{Family: "F-chk", Name: fmt.Sprintf("chk-%s-m%02d-f%s", lv, mask, failName), Plans: []PlanSpec{ps}})
+			}
+		}
+	}
+	// both levels: all five groups at both levels, each single failing group at each level, and two actions per group.
+	for level := 0; level < 2; level++ {
+		for fi := -1; fi < 5; fi++ {
+			if fi == -1 && level == 1 {
+				continue
+			}
+			ps := PlanSpec{Blocks: []BlockSpec{{Seqs: okSeqs(2, 1), Conc: 2}, {Seqs: okSeqs(1, 1), Conc: 1}}}
+			b := &ps.Blocks[0]
+			for gi, g := range groupNames {
+				pc := &ChecksSpec{Actions: []ActSpec{A(), A()}}
+				bc := &ChecksSpec{Actions: []ActSpec{A(), A()}}
+				if gi == fi {
+					if level == 0 {
+						pc.Actions[1] = A(Perm)
+					} else {
+						bc.Actions[1] = A(Perm)
+					}
+				}
+				setGroup(&ps.Bypass, &ps.Pre, &ps.Cont, &ps.Post, &ps.Def, g, pc)
+				setGroup(&b.Bypass, &b.Pre, &b.Cont, &b.Post, &b.Def, g, bc)
+			}
+			// a passing bypass would skip everything: make the bypass groups fail unless they are the subject
+			if fi != 0 {
+				ps.Bypass.Actions[0] = A(Perm)
+				b.Bypass.Actions[0] = A(Perm)
+			} else if level == 0 {
+				b.Bypass.Actions[0] = A(Perm)
+			} else {
+				ps.Bypass.Actions[0] = A(Perm)
+			}
+			out = append(out, &Scenario{Family: "F-chk", Name: fmt.Sprintf("chk-both-l%d-f%d", level, fi), Plans: []PlanSpec{ps}})
+		}
+	}
+	return out
+}
+
+// FamilySharp: hand-picked scenarios, one per shortcut visible in the engine code.
+func FamilySharp(tier string) []*Scenario {
+	var out []*Scenario
+	add := func(name string, ps ...PlanSpec) *Scenario {
+		sc := &Scenario{Family: "F-sharp", Name: "sharp-" + name, Plans: ps}
+		out = append(out, sc)
+		return sc
+	}
+	// launch loop leaves when the tolerance is exceeded while another sequence is still in flight
+	add("launch-tol-def", PlanSpec{Def: Chk(A()), Blocks: []BlockSpec{{Def: Chk(A()), Post: Chk(A()), Conc: 2, Tol: 0,
+		Seqs: []SeqSpec{Seq(A(Perm)), Seq(A(), A()), Seq(A()), Seq(A())}}, {Seqs: okSeqs(1, 1)}}})
+	add("launch-tol1-def", PlanSpec{Post: Chk(A()), Def: Chk(A()), Blocks: []BlockSpec{{Def: Chk(A()), Conc: 2, Tol: 1,
+		Seqs: []SeqSpec{Seq(A(Perm)), Seq(A(Perm)), Seq(A(), A()), Seq(A()), Seq(A())}}}})
+	add("launch-tol-c3", PlanSpec{Def: Chk(A()), Blocks: []BlockSpec{{Def: Chk(A()), Conc: 3, Tol: 0,
+		Seqs: []SeqSpec{Seq(A()), Seq(A(Perm)), Seq(A(), A()), Seq(A()), Seq(A())}}}})
+	// last sequence fails (re-check after the wait)
+	add("last-seq-fails", PlanSpec{Blocks: []BlockSpec{{Def: Chk(A()), Post: Chk(A()), Conc: 2, Tol: 0,
+		Seqs: []SeqSpec{Seq(A()), Seq(A()), Seq(A(Perm))}}, {Seqs: okSeqs(1, 1)}}})
+	// all fail, unlimited tolerance
+	add("all-fail-tol-unlimited", PlanSpec{Blocks: []BlockSpec{{Post: Chk(A()), Conc: 2, Tol: -1,
+		Seqs: []SeqSpec{Seq(A(Perm)), Seq(A(Perm)), Seq(A(Perm))}}, {Seqs: okSeqs(1, 1)}}})
+	// bypassed first block, second block runs
+	add("bypassed-first-block", PlanSpec{Blocks: []BlockSpec{{Bypass: Chk(A()), Pre: Chk(A()), Def: Chk(A()), Seqs: okSeqs(2, 1), Conc: 2},
+		{Pre: Chk(A()), Seqs: okSeqs(2, 1), Conc: 2}}})
+	// bypassed plan
+	add("bypassed-plan", PlanSpec{Bypass: Chk(A(), A()), Pre: Chk(A()), Cont: Chk(A()), Post: Chk(A()), Def: Chk(A()), Blocks: []BlockSpec{{Seqs: okSeqs(2, 1), Conc: 2}}})
+	// everything at once, nothing failing
+	all := PlanSpec{Bypass: Chk(A(Perm)), Pre: Chk(A()), Cont: Chk(A()), Post: Chk(A()), Def: Chk(A()),
+		Blocks: []BlockSpec{{Bypass: Chk(A(Perm)), Pre: Chk(A()), Cont: Chk(A()), Post: Chk(A()), Def: Chk(A()), Seqs: okSeqs(2, 2), Conc: 2},
+			{Pre: Chk(A()), Post: Chk(A()), Seqs: okSeqs(1, 1)}}}
+	add("all-groups-ok", all)
+	// retries inside a sequence next to a failing sequence
+	add("retry-next-to-failure", PlanSpec{Blocks: []BlockSpec{{Def: Chk(A()), Conc: 2, Tol: 0,
+		Seqs: []SeqSpec{Seq(AR(2, Trans, OK), A()), Seq(A(Perm)), Seq(A())}}}})
+	// single block vs two block with failing second block
+	add("second-block-fails", PlanSpec{Post: Chk(A()), Def: Chk(A()), Blocks: []BlockSpec{{Seqs: okSeqs(2, 1), Conc: 2},
+		{Post: Chk(A()), Def: Chk(A()), Seqs: []SeqSpec{Seq(A(), A(Perm)), Seq(A())}, Conc: 1, Tol: 0}, {Seqs: okSeqs(1, 1)}}})
+	// post-check failing with deferred present at both levels
+	add("post-fails-def-present", PlanSpec{Post: Chk(A()), Def: Chk(A()), Blocks: []BlockSpec{{Post: Chk(A(), A(Perm)), Def: Chk(A()), Seqs: okSeqs(2, 1), Conc: 2}, {Seqs: okSeqs(1, 1)}}})
 	return out
 }
